@@ -10,6 +10,7 @@ quantities (float RGB channels, L*, luminance …) inside their ranges; that par
 is exercised by the boundary-alphabet runs of the check.
 -/
 import Pastel.Lemmas.Clamp
+import Pastel.Lemmas.LightMono
 
 namespace Pastel.C05
 open Pastel Sc ScOrd
@@ -134,5 +135,25 @@ whose stored fields are `(0, 1, 0, 1)`. -/
 example : let c := fromHsla (0.0 / 0.0 : Float) (1.0 / 0.0) (-5.0) (0.0 / 0.0);
     (c.hue == 0.0) = true ∧ (c.sat == 1.0) = true ∧ (c.light == 0.0) = true ∧ (c.alpha == 1.0) = true := by
   decide +kernel
+
+
+/-! ### Hue ranges in exact arithmetic -/
+
+/-- `Hue::value` reports a hue in `[0, 360]` for every stored number. -/
+theorem hueValue_range (h : ℝ) : 0 ≤ hueValue h ∧ hueValue h ≤ 360 := real_hueValue_range h
+
+/-- The LCh hue reported by `to_lch` lies in `[0, 360)`, for every colour. -/
+theorem toLch_hue_range (c : Color ℝ) : 0 ≤ (toLch c).z ∧ (toLch c).z < 360 := by
+  have := real_modPositive_range (ScT.atan2 (toLab c).z (toLab c).y * rad2deg) (360.0 : ℝ) (by norm_num)
+  unfold toLch
+  simp only []
+  norm_num at this ⊢
+  exact this
+
+/-- Chroma is non-negative. -/
+theorem toLch_chroma_nonneg (c : Color ℝ) : 0 ≤ (toLch c).y := by
+  unfold toLch
+  simp only [real_sqrt]
+  exact Real.sqrt_nonneg _
 
 end Pastel.C05
